@@ -53,6 +53,40 @@ CHECKS = {
         note="Finite alphabet of chunk/utterance lengths; merging by canonical state with NaN-poisoned "
              "dead regions (as C01).",
         design="3/C04"),
+    "C05": dict(
+        level="exploration", engine="L-lattice",
+        technique="bounded-exhaustive lattice bank class x scale x num_filts x rate x range x flags, every "
+                  "filter: closed-form layout reference and DTFT-of-impulse-response measurements",
+        text="Every constructible bank of the lattice: centres/edges equal the independently re-implemented "
+             "scale layout, centres strictly increasing and inside supports_hz; for filters whose support "
+             "spans < rate/2: peak at the centre with gain 1 (two routes: DTFT of the impulse response and "
+             "the frequency response), 3 dB crossings (erb=False) or ERB = edge spacing (erb=True, Parseval), "
+             "unit L2 norm with scale_l2_norm; triangle / mel-triangle equality at every bin; invalid ranges "
+             "rejected with ValueError.",
+        note="(Nyquist, Nyquist+1] is left open by the property and untested; unconstructible valid "
+             "configurations are counted, not violations; odd sampling rates not enumerated.",
+        design="3/C05"),
+    "C06": dict(
+        level="exploration", engine="L-lattice",
+        technique="bounded-exhaustive lattice banks x every filter x DFT widths (2..600 sweep in thorough), "
+                  "docstring rebuild recipe vs get_frequency_response",
+        text="For every bank, filter and width: rebuilt-from-truncated vs full response within 2 eps "
+             "(identical up to 1e-12 for triangular/Fbank), start bin in [0,width), real banks inside the "
+             "half spectrum, half=True equals the leading bins, Hermitian symmetry, analytic filters vanish "
+             "on negative frequencies, all finite.",
+        note="Widths per bank are bounded by the cost of the library's per-period Python loops (stated in "
+             "the module).",
+        design="3/C06"),
+    "C07": dict(
+        level="exploration", engine="L-lattice",
+        technique="bounded-exhaustive lattice banks x every filter x buffer widths {W0, W0+1, 2W0, 4W0-1}: "
+                  "inverse DFT vs impulse response and support bounds in both domains",
+        text="In every buffer long enough for the filter: ifft(frequency response) equals the impulse "
+             "response within 2 eps, real iff is_real, magnitudes outside `supports` < 2 eps and outside "
+             "`supports_hz` < 2.5 eps, zero-phase supports straddle 0, causal gammatone supports start at 0.",
+        note="Domain as stated by the property (zero-phase banks; gammatone order >= 3 without L2 scaling); "
+             "filters with W0 above a cap are skipped and counted.",
+        design="3/C07"),
     "C08": dict(
         level="exploration", engine="L-lattice",
         technique="exhaustive enumeration of the alias registry, of every class tree with <=5 (thorough 7) "
